@@ -290,7 +290,7 @@ def check_C09(F, tier, t0):
 def check_C10(F, tier, t0):
     R = Report('C10')
     guarded(R, 'X1', engine_x.rule_X1_printers, F, R)
-    guarded(R, 'X2', engine_x.rule_X2, F, R)
+    guarded(R, 'X2', engine_x.rule_X2, F, R, ('table',))
     guarded(R, 'X3', engine_x.rule_X3, F, R)
     guarded(R, 'X4', engine_x.rule_X4, F, R, ('parse', 'model', 'retain'))
     guarded(R, 'T filter spellings', engine_t.rule_tte, F, R)
@@ -391,6 +391,18 @@ def check_C13(F, tier, t0):
             if cell[0] == 'rsbdd::bdd::BDDEnv': R.violation(key, rule, msg, loc)
         engine_g.key_type_impls_clean(F, R)
     guarded(R, 'G2', g)
+    if tier == 'thorough':
+        def w():
+            import witness
+            r = witness.run(framework.REPO)
+            R.count('W:witness-doctests', r['passed'])
+            ok = r['exit'] == 0 and r['failed'] == 0 and r['passed'] >= 6
+            R.obligation(ok, 'W witnesses')
+            R.sample({'rule': 'W', 'doc-tests': r['tests']})
+            if not ok:
+                R.violation('rsbdd / W / type-level witnesses', 'W', 'a type-level witness (Freeze of diagram nodes / no &mut path to a shared node or to the table) or its compile_fail twin no longer holds: %s' % (r['tests'] or r['tail'][-400:]))
+        guarded(R, 'W', w)
+        R.floor('W:witness-doctests', 6)
     R.floor('E1:Choice-constructor-sites', 2); R.floor('E3:table.insert', 3); R.floor('E3:nodes.borrow_mut', 1); R.floor('E3:nodes.borrow', 4)
     R.floor('E4:Rc<BDD>::new-sites', 5); R.floor('E5:functions', 20); R.floor('E6:functions-reachable-from-ops', 40); R.floor('G2:key-impls', 6)
     return finish(R, 'other', tier, t0,
@@ -405,7 +417,7 @@ def check_C13(F, tier, t0):
 def check_C14(F, tier, t0):
     R = Report('C14')
     guarded(R, 'X1 dot', engine_x.rule_X1_dot, F, R)
-    guarded(R, 'X2', engine_x.rule_X2, F, R)
+    guarded(R, 'X2', engine_x.rule_X2, F, R, ('dot',))
     guarded(R, 'X6', engine_x.rule_X6, F, R)
     R.floor('X1:edge-tuples', 2); R.floor('X2:dot-leaf-cases', 6); R.floor('X2:dot-edge-cases', 18); R.floor('X6:variants', 12); R.floor('X6:recursive-fields', 11)
     return finish(R, 'other', tier, t0,
